@@ -2175,6 +2175,12 @@ func (w *Writer) scanBlockForWritesPerFunc(block ir.Block, expressions []ir.Expr
 			w.markGlobalWritePerFunc(s.Pointer, expressions, funcWrites)
 		case ir.StmtAtomic:
 			w.markGlobalWritePerFunc(s.Pointer, expressions, funcWrites)
+		case ir.StmtCall:
+			// A storage buffer passed by pointer binds to the callee's
+			// `device T&` parameter, which a `const&` cannot do.
+			for _, arg := range s.Arguments {
+				w.markGlobalWritePerFunc(arg, expressions, funcWrites)
+			}
 		case ir.StmtBlock:
 			w.scanBlockForWritesPerFunc(s.Block, expressions, funcWrites)
 		case ir.StmtIf:
